@@ -45,6 +45,7 @@ def handle (line : String) : String :=
   | "refcanon" :: args => Driver.RefP.canonHandle args
   | "refsplit" :: args => Driver.RefP.splitHandle args
   | "refcompose" :: args => Driver.RefP.composeHandle args
+  | "refloop" :: args => Driver.RefP.loopHandle args
   | "amp" :: args => Driver.PassP.handle "amp" args
   | "ent" :: args => Driver.PassP.handle "ent" args
   | "strip" :: args => Driver.PassP.handle "strip" args
